@@ -6,7 +6,7 @@ from mashumaro.exceptions import (ExtraKeysError, InvalidFieldValue, MissingDisc
 
 from vf import arb, oracle, symval, tinfo
 from vf.hlib import call, fail, pick
-from vf.props.common import deep_eq, leaf_strings
+from vf.props.common import deep_eq, known_defect_suffix, leaf_strings
 
 NON_DICTS = [None, 5, "str", [1], 1.5, True]
 
@@ -79,44 +79,50 @@ def setup(T, NODE, CTX, variant, bad=()):
 def main(S, env):
     d = S.node.make(env)
     twin_d = S.node.make(env)
+    return compare_outcome(S, d, twin_d, "C05")
+
+
+def compare_outcome(S, d, twin_d, P):
     st_r, r = call(S.decode, d)
     st_o, o = call(oracle.ref_decode, S.T, d)
     if not deep_eq(d, twin_d):
-        return fail("C05/input-mutated", before=twin_d, after=d)
+        return fail(P + "/input-mutated", before=twin_d, after=d)
     if st_r == "ok":
         if st_o != "ok":
-            return fail("C05/accepted-invalid:%s" % ref_kind(o), input=d, result=r, ref=o)
+            k = known_defect_suffix(S.T, d, r)
+            return fail(P + "/" + (k or "accepted-invalid:%s" % ref_kind(o)), input=d, result=r, ref=o)
         if not deep_eq(r, o):
-            return fail("C05/result-differs", input=d, result=r, reference=o)
+            k = known_defect_suffix(S.T, d, r)
+            return fail(P + "/" + (k or "result-differs"), input=d, result=r, reference=o)
         return True
     e = r
     if st_o == "ok":
-        return fail("C05/rejected-valid:%s" % type(e).__name__, input=d, exc=e)
+        return fail(P + "/rejected-valid:%s" % type(e).__name__, input=d, exc=e)
     if not isinstance(o, oracle.RefError):
         raise AssertionError("oracle raised %r" % (o,))
     if o.kind == "not-a-dict":
         if type(e) is not ValueError:
-            return fail("C05/non-dict-wrong-exception:%s" % type(e).__name__, input=d, exc=e)
+            return fail(P + "/non-dict-wrong-exception:%s" % type(e).__name__, input=d, exc=e)
         return True
     if o.kind == "extra":
         if type(e) is not ExtraKeysError:
-            return fail("C05/extra-keys-wrong-exception:%s" % type(e).__name__, input=d, exc=e)
+            return fail(P + "/extra-keys-wrong-exception:%s" % type(e).__name__, input=d, exc=e)
         if set(e.extra_keys) != set(o.extra):
-            return fail("C05/extra-keys-wrong-set", input=d, got=e.extra_keys, want=o.extra)
+            return fail(P + "/extra-keys-wrong-set", input=d, got=e.extra_keys, want=o.extra)
         return True
     if o.kind == "missing":
         if type(e) is not MissingField:
-            return fail("C05/missing-wrong-exception:%s" % type(e).__name__, input=d, exc=e, want_field=o.field_name)
+            return fail(P + "/missing-wrong-exception:%s" % type(e).__name__, input=d, exc=e, want_field=o.field_name)
         if e.field_name != o.field_name or e.holder_class is not o.holder:
-            return fail("C05/missing-wrong-culprit", input=d, got=e.field_name, want=o.field_name)
+            return fail(P + "/missing-wrong-culprit", input=d, got=e.field_name, want=o.field_name)
         return True
     if o.kind == "invalid":
         if type(e) is not InvalidFieldValue:
-            return fail("C05/invalid-wrong-exception:%s" % type(e).__name__, input=d, exc=e, want_field=o.field_name)
+            return fail(P + "/invalid-wrong-exception:%s" % type(e).__name__, input=d, exc=e, want_field=o.field_name)
         if e.field_name != o.field_name or e.holder_class is not o.holder:
-            return fail("C05/invalid-wrong-culprit", input=d, got=e.field_name, want=o.field_name)
+            return fail(P + "/invalid-wrong-culprit", input=d, got=e.field_name, want=o.field_name)
         if e.field_value is not o.field_value:
-            return fail("C05/invalid-wrong-value", input=d, got=e.field_value, want=o.field_value)
+            return fail(P + "/invalid-wrong-value", input=d, got=e.field_value, want=o.field_value)
         return True
     raise AssertionError("unknown oracle kind %r" % (o.kind,))
 
